@@ -127,6 +127,43 @@ def recut_path(k):
     return path
 
 
+ALTERNATIVES = [("u32", [0x06], 4), ("u16", [0x12], 2), ("i16", [0x10], 2), ("i8", [0x0F], 1), ("enum", [0x16], 1), ("null", [0x00], 0), ("visible(3)", [0x0A, 0x03], 3),
+                ("octets(3)", [0x09, 0x03], 3), ("octets(12)", [0x09, 0x0C], 12), ("octets(6)", [0x09, 0x06], 6), ("struct(1){u16}", [0x02, 0x01, 0x12], 2), ("visible(0)", [0x0A, 0x00], 0)]      # at most 2 value octets of a replacement are free (3 for the date-time), the rest concrete
+
+
+def type_swap_path(label, meter, msg, alternatives=None):
+    """type tags swapped / lengths altered: every leaf of the list, in turn, is replaced by an item of every other A-XDR type whose
+    value octets are free; the list stays well-formed otherwise (frame and bare body)"""
+    pos = CR.split_frame(msg)[1]
+    root = CR.walk(msg, pos, greedy=(meter == "kamstrup"))
+    leaves = []
+
+    def visit(n):
+        if n.kind in ("array", "struct"):
+            for k in n.children:
+                visit(k)
+        else:
+            leaves.append(n)
+    visit(root)
+
+    def path(eng, ctx):
+        lf = leaves[eng.pick(len(leaves))]
+        alts = alternatives or ALTERNATIVES
+        name, head, nfree = alts[eng.pick(len(alts))]
+        if name == "octets(12)":
+            body = [0x07, 0xE4, 0x01, 0x19, 0x06, 0x0D, 0x09, 0x1E, 0xFF, 0x80, 0x00, 0x00]          # a date-time; month, hour and deviation octets free
+            for j, pos_ in enumerate((2, 5, 9)):
+                body[pos_] = sym_octet(f"v{j}", "int")
+            repl = list(head) + body
+        else:
+            repl = list(head) + [sym_octet(f"v{i}", "int") for i in range(min(nfree, 2))] + [0x41] * max(0, nfree - 2)
+        o = list(msg[:lf.start]) + repl + list(msg[lf.end:])
+        form = eng.pick(2)
+        data = o if form == 0 else o[pos:]
+        run_all_decoders(eng, ctx, SBytes(data), f"{label}: item at {lf.start} ({lf.kind}) replaced by {name} ({'frame' if form == 0 else 'body'})")
+    return path, len(leaves)
+
+
 def free_binary_path(n):
     def path(eng, ctx):
         k = 1 + eng.pick(n)
@@ -230,6 +267,15 @@ def scenarios(tier):
                                 domains=("decoders", "p1"), frontier=1, assumptions=A, replay_cap=30, engine_opts={"path_time_limit": 120}, path_budget=8))
         out.append(Scenario(f"{label}: every truncation", truncation_path(label, msg), bounds={"truncations": f"0..{n - 1}"}, domains=("decoders", "p1"), frontier=1, assumptions=A, replay_cap=30,
                             engine_opts={"path_time_limit": 120}))
+    swaps = [("aidon", "no_list_1"), ("kaifa", "no_list_2"), ("kamstrup", "no_list_2_single_phase")] if q else \
+        [("aidon", n) for n in ("no_list_1", "no_list_2", "no_list_3", "se_list")] + [("kaifa", n) for n in ("no_list_1", "no_list_2", "no_list_3", "se_list")] + \
+        [("kamstrup", n) for n in ("no_list_1_three_phase", "no_list_2_single_phase", "no_list_2_single_phase_real_sample", "se_list_real_sample")]
+    for meter, n in swaps:
+        quick_alts = [a for a in ALTERNATIVES if a[0] in ("null", "visible(3)", "octets(12)", "u16", "i8")]
+        pth, nl = type_swap_path(f"{meter} {n}", meter, D.fixture(meter, n), quick_alts if q and meter != "aidon" else None)
+        out.append(Scenario(f"{meter} {n}: every item replaced in turn by an item of every other type (free value octets)", pth,
+                            bounds={"items": nl, "replacement_types": [a[0] for a in ALTERNATIVES], "forms": "frame and body"}, domains=("decoders", "p1"), frontier=2, assumptions=A, replay_cap=40,
+                            engine_opts={"path_time_limit": 120}, path_budget=8))
     for k in (range(0, 21) if not q else (0, 2, 3, 9, 10, 13, 14, 17, 18, 19)):
         out.append(Scenario(f"kaifa positional list re-cut to {k} items (count octet consistent), frame and body", recut_path(k), bounds={"items": k, "source": "Kaifa list 3 (18 items) cut / repeated"},
                             domains=("decoders", "p1"), frontier=1, workers=1, assumptions=A, replay_cap=10, engine_opts={"path_time_limit": 120}))
